@@ -351,7 +351,8 @@ impl<C: CrcCalculator> Encapsulator<C> {
 
         // if it fits into a complete package
         let min_header_len = FIXED_HEADER_LEN + PROTOCOL_LEN + label_len;
-        let buffer_len = buffer.len();
+        // a GSE packet never exceeds GSE_LEN_MAX + FIXED_HEADER_LEN bytes: the rest of a larger buffer is not usable
+        let buffer_len = buffer.len().min(GSE_LEN_MAX + FIXED_HEADER_LEN);
 
         let pdu_len_encapsulated: usize;
         let pkt_type: PktType;
@@ -526,7 +527,8 @@ impl<C: CrcCalculator> Encapsulator<C> {
         let len_pdu_frag = context.len_pdu_frag as usize;
         let frag_id = context.frag_id;
         let crc = context.crc;
-        let buffer_len = buffer.len();
+        // a GSE packet never exceeds GSE_LEN_MAX + FIXED_HEADER_LEN bytes: the rest of a larger buffer is not usable
+        let buffer_len = buffer.len().min(GSE_LEN_MAX + FIXED_HEADER_LEN);
         let pdu_len = pdu.len();
 
         // Metadata error
@@ -652,7 +654,8 @@ impl<C: CrcCalculator> Encapsulator<C> {
 
         // if it fits into a complete package
         let min_header_len = FIXED_HEADER_LEN + PROTOCOL_LEN + label_len + total_len_extensions;
-        let buffer_len = buffer.len();
+        // a GSE packet never exceeds GSE_LEN_MAX + FIXED_HEADER_LEN bytes: the rest of a larger buffer is not usable
+        let buffer_len = buffer.len().min(GSE_LEN_MAX + FIXED_HEADER_LEN);
 
         let pdu_len_encapsulated: usize;
         let pkt_type: PktType;
@@ -863,7 +866,8 @@ pub fn encap_preview(
 
     // if it fits into a complete package
     let min_header_len = FIXED_HEADER_LEN + PROTOCOL_LEN + label_len;
-    let buffer_len = buffer.len();
+    // a GSE packet never exceeds GSE_LEN_MAX + FIXED_HEADER_LEN bytes: the rest of a larger buffer is not usable
+    let buffer_len = buffer.len().min(GSE_LEN_MAX + FIXED_HEADER_LEN);
 
     let pdu_len_encapsulated: usize;
     let pkt_type: PktType;
@@ -929,7 +933,8 @@ pub fn encap_frag_preview(
     buffer: &[u8],
 ) -> Result<EncapPreview, EncapError> {
     let len_pdu_frag = context.len_pdu_frag as usize;
-    let buffer_len = buffer.len();
+    // a GSE packet never exceeds GSE_LEN_MAX + FIXED_HEADER_LEN bytes: the rest of a larger buffer is not usable
+    let buffer_len = buffer.len().min(GSE_LEN_MAX + FIXED_HEADER_LEN);
     let pdu_len = pdu.len();
 
     // Metadata error
